@@ -187,7 +187,7 @@ func JudgeC01(in *Input, A, B *core.Entry, p *Plan) (r Result) {
 		}
 	}
 	r.NonTrivial = len(p.Conflicts) > 0 || destroysSomething(p.Alpha) || destroysSomething(p.Beta)
-	if v, class := revertAfterAgreement(in, A, B, p); v != "" {
+	if v, class := revertAfterAgreement(in, A, B, p, []string{"alpha", "beta"}); v != "" {
 		r.Violation = v
 		return
 	} else if class != "" {
@@ -202,7 +202,7 @@ func JudgeC01(in *Input, A, B *core.Entry, p *Plan) (r Result) {
 // different entry Y at such a path, the history is continued: one endpoint
 // puts Y back (a modification since the last synchronization) and the next
 // cycle is planned from the recorded state; it must not destroy Y.
-func revertAfterAgreement(in *Input, A, B *core.Entry, p *Plan) (violation, class string) {
+func revertAfterAgreement(in *Input, A, B *core.Entry, p *Plan, protected []string) (violation, class string) {
 	anc2, A2, B2, e := applyPlanIdeal(in.Anc, A, B, p)
 	if e != "" {
 		return "", ""
@@ -235,7 +235,7 @@ func revertAfterAgreement(in *Input, A, B *core.Entry, p *Plan) (violation, clas
 		if !ok {
 			continue
 		}
-		for _, side := range []string{"alpha", "beta"} {
+		for _, side := range protected {
 			A3, B3 := A2, B2
 			if side == "alpha" {
 				A3, ok = tree.ApplyModel(A2, c.path, tree.Clone(c.y))
@@ -246,8 +246,10 @@ func revertAfterAgreement(in *Input, A, B *core.Entry, p *Plan) (violation, clas
 				continue
 			}
 			_, alphaT, betaT, _ := core.Reconcile(anc2, A3, B3, in.Mode)
-			v := checkOldAndDestroyed("alpha", alphaT, A3, truth)
-			if v == "" {
+			v := ""
+			if side == "alpha" {
+				v = checkOldAndDestroyed("alpha", alphaT, A3, truth)
+			} else {
 				v = checkOldAndDestroyed("beta", betaT, B3, truth)
 			}
 			if v != "" {
@@ -272,6 +274,12 @@ func JudgeC02(in *Input, A, B *core.Entry, p *Plan) (r Result) {
 				return
 			}
 			r.NonTrivial = !tree.SubsetOf(tree.Sync(B), in.Anc) && len(p.Beta)+len(p.Conflicts) > 0
+			if v, class := revertAfterAgreement(in, A, B, p, []string{"beta"}); v != "" {
+				r.Violation = v
+				return
+			} else if class != "" {
+				r.Classes = append(r.Classes, class)
+			}
 		} else {
 			// Replica: the plan must at least describe beta faithfully.
 			for _, c := range p.Beta {
@@ -288,6 +296,12 @@ func JudgeC02(in *Input, A, B *core.Entry, p *Plan) (r Result) {
 			return
 		}
 		r.NonTrivial = !tree.SubsetOf(tree.Sync(A), in.Anc) && len(p.Alpha)+len(p.Beta)+len(p.Conflicts) > 0
+		if v, class := revertAfterAgreement(in, A, B, p, []string{"alpha"}); v != "" {
+			r.Violation = v
+			return
+		} else if class != "" {
+			r.Classes = append(r.Classes, class)
+		}
 	}
 	return
 }
